@@ -88,6 +88,15 @@ def random_script(rng, kind, elem, cap, nops, old_iface=False, old_vec=False):
                 p = rng.randrange(0, n + 1); lines.append("InsertSelf %d %d %d" % (c, p, i)); el[c].insert(p, el[c][i])
             else:
                 lines.append("%s %d %d" % (w, c, i)); el[c] = el[c] + [el[c][i]]
+        elif r < 0.09 and elem == "tracked":
+            # injected failures: the constructor of the new element throws / the allocator refuses; the operation has no effect and the
+            # container stays usable (the operations that follow are judged as always)
+            w = rng.choice(["PushBack", "EmplaceBack", "Resize", "Reserve"] if kind == "vec" else ["PushBack", "EmplaceBack", "Resize"])
+            if w == "Reserve": lines += ["Arm alloc", "Reserve %d %d" % (c, 3000 + rng.randrange(0, 5000))]
+            elif w == "Resize":
+                m = n + rng.randrange(1, 4)
+                if cap == 0 or n < cap: lines += ["Arm ctor 1", "Resize %d %d" % (c, m)]
+            else: lines += ["Arm ctor 1", "%s %d %d" % (w, c, v)]
         elif r < 0.18: lines.append("PushBack %d %d" % (c, v)); el[c] = cut(el[c] + [v])
         elif r < 0.26: lines.append("EmplaceBack %d %d" % (c, v)); el[c] = cut(el[c] + [v])
         elif r < 0.38 and kind == "vec":
